@@ -712,6 +712,23 @@ impl<'a, R: Rng> Gen<'a, R> {
             drop_last(key),
             swap_two(key),
         ];
+        // position-dependent near misses: a proper prefix, one character replaced, one character's case flipped,
+        // a leading extra character, the key twice (prefix/suffix/contains-style matching would accept these)
+        let cs: Vec<char> = key.chars().collect();
+        if !cs.is_empty() {
+            let i = self.below(cs.len());
+            cands.push(cs[..i].iter().collect());
+            let mut r = cs.clone();
+            r[i] = if r[i] == 'q' { 'z' } else { 'q' };
+            cands.push(r.into_iter().collect());
+            let mut f = cs.clone();
+            f[i] = if f[i].is_uppercase() { f[i].to_lowercase().next().unwrap() } else { f[i].to_uppercase().next().unwrap() };
+            cands.push(f.into_iter().collect());
+            cands.push(format!("_{key}"));
+            cands.push(format!("{key}{key}"));
+            cands.push(key.replace('_', "-"));
+            cands.push(key.replace('_', ""));
+        }
         cands.retain(|c| c != key);
         if self.keys_plain() {
             cands.retain(|c| !c.is_empty() && c.chars().all(|ch| ch.is_ascii_alphanumeric() || ch == '_'));
